@@ -150,6 +150,56 @@ def parseCtx (realm : String) (rcode : Int) (j : Json) : E Ctx := do
   | "redirect" => pure (redirectExec rcode (← str j "to") base)
   | x => throw s!"unknown handler {x}"
 
+def parseCel : String → E Cel
+  | "holds" => pure .holds
+  | "fails" => pure .fails
+  | "error" => pure .error
+  | x => throw s!"unknown CEL outcome {x}"
+
+/-- how the pipeline of a rule failed (or did not) -/
+partial def parseCause (j : Json) : E (Option Err) := do
+  if j.isNull then return none
+  match j.getObjVal? "term" with
+  | .ok t => return some (← parseErr t)
+  | .error _ => pure ()
+  match j.getObjVal? "celAuthz" with
+  | .ok c => return celAuthorize (← parseCel (← c.getStr?))
+  | .error _ => pure ()
+  match j.getObjVal? "stepIf" with
+  | .ok c => return stepIf (← parseCel (← c.getStr?)) (← parseCause (fldD j "step" Json.null))
+  | .error _ => throw "unknown cause"
+
+def parseHandler (realm : String) (rcode : Int) (j : Json) : E (Cel × Handler) := do
+  let c ← parseCel (strD j "c" "holds")
+  match ← str j "h" with
+  | "default" => pure (c, .default)
+  | "redirect" => pure (c, .redirect (((fld j "code") >>= (·.getInt?)).toOption.getD rcode) (← str j "to"))
+  | "www" => pure (c, .www (strD j "realm" realm))
+  | x => throw s!"unknown handler {x}"
+
+/-- answer of the model and the failure that reaches the translator (for the specification) -/
+def svcAnswer (tr : Transport) (cfg : Cfg) (acc : Accept) (realm : String) (rcode : Int) (j : Json) :
+    E (Out × Option Failure) := do
+  match j.getObjVal? "pipe" with
+  | .ok p =>
+    let up ← (arrD p "up").mapM fun h => do
+      match ← (h.getArr?) with
+      | #[k, v] => pure ((← k.getStr?), (← v.getStr?))
+      | _ => throw "bad upstream header"
+    let ctx : Ctx := { upstream := up, pipelineError := none }
+    match ← parseCause (fldD p "cause" Json.null) with
+    | none => pure (serve tr.translator cfg acc ctx, none)
+    | some cause =>
+      let hs ← (arrD p "hs").mapM (parseHandler realm rcode)
+      let f := match handleError hs cause ctx with
+        | (_, some e) => some (plain e)
+        | (ctx', none) => finalize ctx'
+      pure (serveFailure tr.translator cfg acc hs cause ctx, f)
+  | .error _ =>
+    let rc := ((fld j "code") >>= (·.getInt?)).toOption.getD rcode
+    let ctx ← parseCtx realm rc j
+    pure (serve tr.translator cfg acc ctx, finalize ctx)
+
 def runSvc (c : Json) : E Json := do
   let cfgD ← parseCfg (← fld c "cfg")
   let cfgP ← parseCfg (fldD c "pcfg" (← fld c "cfg"))
@@ -164,16 +214,31 @@ def runSvc (c : Json) : E Json := do
     let tr : Transport := if (← str r "svc") == "envoy" then .grpc else .http
     let cfg := if (← str r "svc") == "proxy" then cfgP else cfgD
     let acc ← parseAccept (fldD r "acc" (Json.mkObj []))
-    let ctx ← parseCtx realm rcode (fldD r "ctx" (Json.mkObj []))
-    out := out ++ [outJson (serve tr.translator cfg acc ctx)]
+    let (o, f) ← svcAnswer tr cfg acc realm rcode (fldD r "ctx" (Json.mkObj []))
+    out := out ++ [outJson o]
     match impl[i]? with
     | some a =>
-      match finalize ctx with
+      match f with
       | some f => spec := spec ++ [judge tr cfg acc f (fldD a "resp" Json.null)]
       | none => spec := spec ++ [Json.bool (strD (fldD a "resp" Json.null) "out" "" == "ok")]
     | none => pure ()
     i := i + 1
   pure (Json.mkObj [("res", jarr out), ("spec", jarr spec)])
+
+/-- a redirect error handler created from configuration and executed on a fresh request context -/
+def runMech (c : Json) : E Json := do
+  let cfg ← parseCfg (← fld c "cfg")
+  let acc ← parseAccept (fldD c "acc" (Json.mkObj []))
+  let code ← int c "code"
+  let ctx := redirectExec code (← str c "to") { upstream := [], pipelineError := none }
+  let h := serve ErrMap.http cfg acc ctx
+  let g := serve ErrMap.grpc cfg acc ctx
+  let spec := match c.getObjVal? "impl", finalize ctx with
+    | .ok impl, some f => [("spec", Json.mkObj [
+        ("http", judge .http cfg acc f (fldD impl "http" Json.null)),
+        ("grpc", judge .grpc cfg acc f (fldD impl "grpc" Json.null))])]
+    | _, _ => []
+  pure (Json.mkObj ([("res", Json.mkObj [("http", outJson h), ("grpc", outJson g)])] ++ spec))
 
 def runCfgKeys (c : Json) : E Json := do
   let kvs ← (← arr c "keys").mapM fun k => do pure ((← str k "key"), (← int k "code"))
@@ -188,6 +253,7 @@ def run (c : Json) : E Json := do
   match ← str c "op" with
   | "handler" => runHandler c
   | "svc" => runSvc c
+  | "mech" => runMech c
   | "cfgkeys" => runCfgKeys c
   | o => throw s!"unknown op {o}"
 
